@@ -57,7 +57,10 @@ def run(v, tier):
     for vs in varsets:
         for li in listeds:
             for lay in (layouts if not quick else rng.sample(layouts, 5)):
-                dreqs.append({'cmd': 'mmdecode', 'vars': vs, 'listed': li, 'layout': lay, 'ws': rng.choice(wss)})
+                # the $v statement may declare the variables in another order than the $f statements (the slicer sorts $v):
+                # the mandatory hypotheses follow the $f order
+                vorder = rng.choice([['ph0', 'ph1', 'ph2', 'ph3'], ['ph3', 'ph2', 'ph1', 'ph0'], ['ph1', 'ph0', 'ph3', 'ph2'], ['ph2', 'ph3', 'ph0', 'ph1']])
+                dreqs.append({'cmd': 'mmdecode', 'vars': vs, 'listed': li, 'layout': lay, 'ws': rng.choice(wss), 'vorder': vorder})
     order = ['ph0', 'ph1', 'ph2', 'ph3']
     seeds = sorted({'0', '1', '2', '3', str(pi2v.SEED)})
     for seed in seeds:
